@@ -1,4 +1,5 @@
 // ===== C04 prelude: AES256-CTR + Poly1305-AES as uninterpreted functions =====
+#[derive(Clone, Copy)]
 pub struct AeadKey { pub _opaque: u64 }
 pub struct Nonce { pub bytes: Vec<u8> }   // 16 bytes
 pub struct Tag { pub bytes: Vec<u8> }     // 16 bytes
